@@ -25,7 +25,8 @@ namespace C07
 open Geomdl Blossom
 variable {K : Type} [Field K] [LinearOrder K] [IsStrictOrderedRing K]
 
-/-- splitting at either end of the domain is rejected -/
+/-- splitting at either end of the domain is rejected
+    (Unfolding lemma: the guard of the model (the `GeomdlException` of `split_curve` at a domain end) evaluated.) -/
 theorem split_rejects_ends (S : Shape K) (dir : ℕ) (u tol : K)
     (h : u = (S.kv dir).getD (S.deg dir) 0 ∨ u = (S.kv dir).getD (S.size dir) 0) :
     splitDir S dir u tol = none := by
@@ -34,7 +35,8 @@ theorem split_rejects_ends (S : Shape K) (dir : ℕ) (u tol : K)
   rw [if_pos h]
 
 /-- decomposition terminates by construction (fuel) and returns at least one piece; with no
-    interior knot the shape is returned unchanged -/
+    interior knot the shape is returned unchanged
+    (Unfolding lemma (one step of the recursion with an empty interior-knot list).) -/
 theorem decompose_bezier_unchanged (dir : ℕ) (tol : K) (fuel : ℕ) (S : Shape K)
     (h : ((S.kv dir).drop (S.deg dir + 1)).take ((S.kv dir).length - 2 * (S.deg dir + 1)) = []) :
     decomposeDir dir tol (fuel + 1) S = [S] := by
